@@ -105,7 +105,10 @@ PLANS["C11"] = {
     "rule": "identity-tagged sources (neighbouring pixels always differ) resized with Nearest: random sizes, strips, valid crops of every "
             "kind, every eighth case a sub-pixel crop flush against the right/bottom edge, 1x1 sources, alpha handling on for alpha types; "
             "each destination pixel must be bit-identical to the source pixel under its centre (either neighbour when the centre is within "
-            "4(n+2) ulp of an integer); non-trivial = destination size differs from the crop size",
+            "4(n+2) ulp of an integer); every case runs on three back-ends with a fresh Resizer, through a TypedImage source (default row "
+            "stepping), and on a Resizer that has just served the same geometry with the crop box moved by one pixel (sliding window); a "
+            "class with integer origin and a fractional size whose integer part is the destination size; the edge-flush class also through "
+            "all source containers (C13 workload); non-trivial = destination size differs from the crop size",
     "assumptions": CONV_ASSUME,
     "quick": [step("rel", "firv-core", 160000), step("asan", "firv-core", 16000), step("miri", "firv-core", 320, shards=16, timeout=3000),
               # the edge-flush geometry through cropped / nested / dynamic source containers (their own row stepping)
@@ -159,7 +162,10 @@ PLANS["C03"] = {
             "mappers and change_type with mismatched arguments, reset/clone; judged by AddressSanitizer, the debug-assertion build, Miri "
             "(Tree Borrows) and the H1 invariant hook; a panic is tolerated only for a custom kernel whose H1 event shows sum|w| >= 4; "
             "sweep: coefficient windows of random geometries up to 65 535 per side checked without pixel data through the H2 accessor; "
-            "the C14 split workload and the C04 constructor workload are also run under Miri/ASan/debug assertions; "
+            "after every call the surroundings of the destination view and the whole source backing store are compared with their sentinels "
+            "(a stray write inside a parent allocation is invisible to a sanitizer); also run under this property's oracles: the C14 split "
+            "workload (Miri sequential and interleaved, ASan), the C04 constructor workloads (ASan), short alpha rows through every entry "
+            "point (Miri) and C02's residue-exhausting resize workload with exact-fit sources (ASan); "
             "non-trivial = every sequence / geometry (all are hostile by construction); distinct = distinct descriptor",
     "assumptions": VIEW_ASSUME + ["Miri's Tree Borrows is the aliasing model (Stacked Borrows rejects the sibling &mut band views although no byte is shared)",
                                   "resource exhaustion (allocation failure) is not a verdict; no case needs more than 64 MB"],
@@ -308,8 +314,9 @@ FLOORS["C06"]["thorough"] = FLOORS["C06"]["quick"]
 PLANS["C09"] = {
     "rule": "random histories of 40-200 operations on one long-lived Resizer (and its clones): resizes mixing all 13 pixel types (pixel "
             "sizes 1..16), growing then shrinking sizes, alpha on/off, every algorithm, saturated contents, erroring calls, "
-            "reset_internal_buffers, clone (both copies continue), back-end switches; every call's output is compared bit for bit with the "
-            "same call on Resizer::new(); the H3 scratch hook proves reuse-without-growth, growth and (under Miri, where Vec<u8> is 1-aligned) "
+            "reset_internal_buffers, clone (both copies continue), back-end switches (set only when they change, so the selected back-end is "
+            "part of the history), a quarter of the calls repeating the previous call with one thing changed (crop position, filter, "
+            "algorithm, alpha flag, contents); every call's output is compared bit for bit with the same call on Resizer::new(); the H3 scratch hook proves reuse-without-growth, growth and (under Miri, where Vec<u8> is 1-aligned) "
             "misaligned-head paths were executed; non-trivial = every history; distinct = distinct history descriptor",
     "assumptions": CONV_ASSUME,
     "quick": [step("rel", "firv-misc", 3200), step("asan", "firv-misc", 640), step("miri", "firv-misc", 160, shards=16, timeout=3000)],
@@ -328,7 +335,9 @@ PLANS["C15"] = {
     "rule": "exhaustive: all (src w, src h, dst w, dst h) in 1..=24 with 4 centerings; random: 10^7 (quick) / 10^9 (thorough) quadruples "
             "in 1..=65 535 biased to near-equal ratios (dst = k*src +- 1), centerings incl. 0, 0.5, 1, -3, 7, +-inf, 1-eps; the returned box "
             "must be inside the source as the validator judges it, have the destination aspect to 1e-12, span one dimension, and sit at the "
-            "clamped centering of the margin; resize: fit_into_destination through Resizer::resize on small images never errors; "
+            "clamped centering of the margin; resize: fit_into_destination through Resizer::resize on identity-tagged images never errors and "
+            "gives exactly the result of an explicit crop() with the box fit_src_into_dst_size returns (so the option cannot place the box "
+            "elsewhere); "
             "non-trivial = every block / case; distinct = distinct descriptor",
     "assumptions": ["NaN centering is excluded (property)"],
     "exhaustive": {"quick": False, "thorough": False},
